@@ -73,6 +73,49 @@ def c01_family(tier):
     return out
 
 
+def c01_window_memory_family(tier):
+    """the window is relative to the highest block EVER finalised, and the database must remember that across everything that
+    empties its caches: grow to H, (commit), reorg to N1, then one of {nothing, restart, clear, commit, k new blocks (+commit)},
+    then a reorg to a target inside the window of the regrown tip but outside the window of H: must be refused without effect;
+    and to a target inside both: must be exact."""
+    out = []
+    H = 20
+    for n1 in ((15,) if tier == "quick" else (15, 12)):
+        for between in ("none", "restart", "clear", "regrow1", "regrow2", "regrow2_commit", "regrow2_restart"):
+            for n2 in (5, 9, 10):
+                s = [{"op": "init", "hash": "h100", "ts": 100, "height": 0},
+                     {"op": "tx", "via": "deploy", "from": "s1", "to": "NULL", "ckind": "cell", "ops": [], "lc": {"fn": "none"}, "insc": "wm0", "idx": 0,
+                      "hash": "h1", "ts": 101, "gas": "ample", "txid": "x1", "enc": "hex"},
+                     {"op": "finalise", "ts": 101, "hash": "h1", "count": 1}]
+                for b in range(2, H + 1):
+                    hh = "h%d" % b
+                    if b in (4, 9, 14, 19):
+                        s.append({"op": "tx", "via": "call", "from": "s1", "to": "c_s1_0", "ckind": "NULL", "ops": [{"op": "sstore", "s": 1, "v": b % 7 + 1}],
+                                  "lc": {"fn": "none"}, "insc": "wm%d" % b, "idx": 0, "hash": hh, "ts": 100 + b, "gas": "ample", "txid": "x%d" % b, "enc": "hex"})
+                        s.append({"op": "finalise", "ts": 100 + b, "hash": hh, "count": 1})
+                    else:
+                        s.append({"op": "finalise", "ts": 100 + b, "hash": hh, "count": 0})
+                s.append({"op": "commit"})
+                s.append({"op": "reorg", "n": n1})
+                k = {"regrow1": 1, "regrow2": 2, "regrow2_commit": 2, "regrow2_restart": 2}.get(between, 0)
+                for j in range(k):
+                    hh = "h%d" % (300 + j)
+                    s.append({"op": "finalise", "ts": 300 + j, "hash": hh, "count": 0})
+                if between in ("restart", "clear"):
+                    s.append({"op": between})
+                if between == "regrow2_commit":
+                    s.append({"op": "commit"})
+                if between == "regrow2_restart":
+                    s += [{"op": "commit"}, {"op": "restart"}]
+                s.append({"op": "reorg", "n": n2})
+                for j in range(2):
+                    hh = "h%d" % (400 + j)
+                    s.append({"op": "finalise", "ts": 400 + j, "hash": hh, "count": 0})
+                s += [{"op": "commit"}, {"op": "restart"}]
+                out.append(s)
+    return out
+
+
 def c03_family(tier):
     """the same history under every commit placement, clear / restart at the end instead of a reorg"""
     out = []
